@@ -490,6 +490,11 @@ fn check_env_cleanup(ctx: &Ctx, judgements: &[DocJudgement], out: &mut Vec<Viola
     for (root, entries) in &obs.fs_after {
         phases.push(("after the orphaned children finished".into(), root.clone(), entries.clone()));
     }
+    if let Some(w) = &cli.work_dir {
+        if !obs.fs_after.iter().any(|(r, e)| canon(r) == canon(w) && !e.is_empty()) {
+            // (an empty listing means the directory, or everything in it, is gone)
+        }
+    }
     for (phase, root, entries) in phases {
         let is_tmp_root = canon(&root) == tmp_root;
         let is_work = cli.work_dir.as_ref().map(|w| canon(w) == canon(&root)).unwrap_or(false);
@@ -497,6 +502,20 @@ fn check_env_cleanup(ctx: &Ctx, judgements: &[DocJudgement], out: &mut Vec<Viola
             continue;
         }
         let mut residue: Vec<&String> = entries.iter().filter(|e| !is_peer(&root, e)).collect();
+        if is_work {
+            // the directory is the user's: it and what was in it stay
+            for must in ["users-own-file.txt", "users-own-dir/"] {
+                if !entries.iter().any(|e| e == must) {
+                    out.push(v(
+                        "C18",
+                        "work-directory-content-removed",
+                        None,
+                        format!("{}: {} that was in --work-directory before the run is gone (exit status {:?})", phase, must, obs.exit_status),
+                    ));
+                }
+            }
+            residue.retain(|e| *e != "users-own-file.txt" && *e != "users-own-dir/");
+        }
         if sc.cli.keep_tmp && is_tmp_root {
             // exactly the kept directories remain
             residue.retain(|e| !(e.starts_with("execution.") || e.starts_with("temp.")));
@@ -516,14 +535,32 @@ fn check_env_cleanup(ctx: &Ctx, judgements: &[DocJudgement], out: &mut Vec<Viola
             ));
         }
         if sc.cli.keep_tmp && is_tmp_root && phase != "at exit" {
-            let kept_exec = entries.iter().filter(|e| e.starts_with("execution.") && e.matches('/').count() == 1 && e.ends_with('/')).count();
-            let executed = obs.docs.iter().filter(|d| !d.tests.is_empty()).count();
-            if executed > 0 && kept_exec == 0 && obs.exit_status != Some(1) {
+            let top = |prefix: &str| {
+                entries
+                    .iter()
+                    .filter(|e| e.starts_with(prefix) && !e.contains(".peer") && e.matches('/').count() == 1 && e.ends_with('/'))
+                    .count()
+            };
+            let (kept_exec, kept_temp) = (top("execution."), top("temp."));
+            // one pair of kept directories per document that got as far as having an environment
+            let with_env: BTreeSet<usize> = obs
+                .docs
+                .iter()
+                .zip(judgements.iter())
+                .filter(|(_, j)| j.tests.iter().any(|t| t.pid.is_some()))
+                .map(|(d, _)| d.doc)
+                .collect();
+            if (kept_exec < with_env.len() || kept_temp < with_env.len()) && !no_docs {
                 out.push(v(
                     "C18",
                     "kept-directories-missing",
                     None,
-                    "--keep-temporary-directories given but no execution.* directory remains".into(),
+                    format!(
+                        "--keep-temporary-directories: {} document(s) were executed but only {} execution.* and {} temp.* directories remain",
+                        with_env.len(),
+                        kept_exec,
+                        kept_temp
+                    ),
                 ));
             }
         }
